@@ -10,3 +10,5 @@ Definition pf_query := Eval vm_compute in failing partition_ok cases_query.
 Print pf_query.
 Definition pf_qorder := Eval vm_compute in failing order_ok cases_qorder.
 Print pf_qorder.
+Definition pf_apipage := Eval vm_compute in failing apipage_prop cases_apipage.
+Print pf_apipage.
